@@ -149,6 +149,7 @@ impl World {
         v
     }
     fn inject(&mut self, op: OpKind) -> Option<io::Error> {
+        crate::core::beat();
         let idx = self.nops;
         self.nops += 1;
         if self.budget_ops != 0 && self.nops > self.budget_ops {
